@@ -369,3 +369,62 @@ def contracts():
     for c in extra:
         c.prop = "C12"
     return _c12_base2() + extra
+
+
+def instantiate_param_contract(deep):
+    """`Parameters._instantiate_param(param_obj, deepcopy=…)` (sharing mode off): the instance gets,
+    under the parameter's name, a DEEP copy of the class default (`copy.deepcopy(default)` — whatever
+    the default's outer type is) when deepcopy is requested, and the default object itself otherwise."""
+    from pyvc.objects import sym_field
+    deepF = z3.Function("deep_copy_of", vm.V, vm.V)
+
+    def configure(I):
+        I.sym_fields = {"default", "name"}
+
+        def deepcopy(I, st, fv, args, kwargs, ctx):
+            st.ghost["deepcopied"] = st.ghost.get("deepcopied", []) + [I.term(args[0])]
+            r = deepF(I.term(args[0]))
+            I.U.well_typed(r)
+            return [(st, Sym(r))]
+        I.lib["copy.deepcopy"] = deepcopy
+
+        def vmethod(I, st, name, selfv, args, kwargs, ctx):
+            if name == "_generate_name":
+                return [(st, Conc(None))]
+            return None
+        I.lib["$value_method"] = vmethod
+
+    def setup(I, st):
+        U = I.U
+        obj = I.alloc_obj(st, "Parameterized", lazy=True, label="obj")
+        priv = I.alloc_obj(st, "_InstancePrivate", lazy=True, label="obj._param__private")
+        values = I.alloc_dict(st, keys=U.fresh_seq("set_names"), vals=z3.Const("instance_values", z3.ArraySort(vm.V, vm.V)))
+        st.heap[priv.oid].fields["values"] = values
+        st.heap[obj.oid].fields["_param__private"] = priv
+        par = I.alloc_obj(st, "Parameters", lazy=False, label="param")
+        st.heap[par.oid].fields.update({"cls": ClsV("Parameterized"), "self": obj, "self_or_cls": obj})
+        pobj = Sym(U.fresh("param_obj"))
+        Fd, Fn = sym_field(I, st, "default"), sym_field(I, st, "name")
+        nm = z3.Select(Fn, pobj.t)
+        st.pc += [vm.ty(nm) == vm.TAG["str"], vm.truthy(nm), vm.truthy(I.term(values))]
+        U.well_typed(nm)
+        fv = I.bound_method(par, I.src.find_method("Parameters", "_instantiate_param"))
+        return fv, [pobj], {"deepcopy": Conc(deep)}, {"values": values, "default": z3.Select(Fd, pobj.t), "name": nm, "symbols": {}}
+
+    def post(I, info, st, oc):
+        if isinstance(oc, Raise):
+            return [("does-not-raise", z3.BoolVal(False))]
+        h = st.heap[info["values"].oid]
+        got = z3.Select(h.vals, info["name"])
+        want = deepF(info["default"]) if deep else info["default"]
+        return [("the instance holds %s under the parameter's name" % ("a deep copy of the class default" if deep else "the class default object itself"),
+                 z3.And(z3.Contains(h.keys, z3.Unit(info["name"])), got == want))]
+    return FunctionContract("%s:Parameters._instantiate_param" % MOD, PROP, setup, post, configure=configure,
+                            name="Parameters._instantiate_param[%s]" % ("deepcopy" if deep else "reference"))
+
+
+_c12_base3 = contracts
+
+
+def contracts():
+    return _c12_base3() + [instantiate_param_contract(True), instantiate_param_contract(False)]
